@@ -39,6 +39,7 @@ structure DState where
   bufs : Array (Option Buf) := #[]
   pools : Array Pool := #[]
   dead : Bool := false
+  nPanicKind : Nat := 0
   lineNo : Nat := 0
   caseNo : Nat := 0
   caseLabel : String := ""
@@ -184,7 +185,10 @@ def settle {α : Type} (s : DState) (what : String) (r : Res α) (rhs : Array St
   match r with
   | .unspec => { s with nUnspec := s.nUnspec + 1, dead := true }
   | .panic h p =>
-    if implOutcome rhs == "panic " ++ p.toString then { s with heap := h }
+    -- any panic of the implementation matches a panic of the model: the properties do not fix the
+    -- panic value (a reworded message is not a violation); a different kind is only counted
+    if (implOutcome rhs).startsWith "panic" then
+      { s with heap := h, nPanicKind := s.nPanicKind + (if implOutcome rhs == "panic " ++ p.toString then 0 else 1) }
     else s.diverge what ("panic " ++ p.toString) (implOutcome rhs)
   | .ok h v =>
     if implOutcome rhs == "ok" then k { s with heap := h } h v
@@ -385,7 +389,7 @@ def modelStep (s : DState) (cmd : String) (t lhs rhs : Array String) (line : Str
       | none => s.diverge "slice-src" "no such view" line
       | some b =>
         match b.slice a e with
-        | none => if implOutcome rhs == "panic sliceBounds" then s else s.diverge s!"slice {src} {a} {e}" "panic sliceBounds" (implOutcome rhs)
+        | none => if (implOutcome rhs).startsWith "panic" then s else s.diverge s!"slice {src} {a} {e}" "panic sliceBounds" (implOutcome rhs)
         | some c =>
           if implOutcome rhs == "ok" then { s with bufs := s.bufs.push (some c) }
           else s.diverge s!"slice {src} {a} {e}" "ok" (implOutcome rhs)
@@ -403,7 +407,7 @@ def modelStep (s : DState) (cmd : String) (t lhs rhs : Array String) (line : Str
       | none => s.diverge "set" "no such view" line
       | some b =>
         match b.setSample s.heap i v with
-        | none => if implOutcome rhs == "panic index" then s else s.diverge "set" "panic index" (implOutcome rhs)
+        | none => if (implOutcome rhs).startsWith "panic" then s else s.diverge "set" "panic index" (implOutcome rhs)
         | some h => if implOutcome rhs == "ok" then { s with heap := h } else s.diverge "set" "ok" (implOutcome rhs)
     else if cmd == "get" then
       let vid := int! (lhs[1]?.getD "0"); let i := int! (lhs[2]?.getD "0")
@@ -411,7 +415,7 @@ def modelStep (s : DState) (cmd : String) (t lhs rhs : Array String) (line : Str
       | none => s.diverge "get" "no such view" line
       | some b =>
         match b.sample s.heap i with
-        | none => if implOutcome rhs == "panic index" then s else s.diverge "get" "panic index" (" ".intercalate rhs.toList)
+        | none => if (implOutcome rhs).startsWith "panic" then s else s.diverge "get" "panic index" (" ".intercalate rhs.toList)
         | some v =>
           if rhs[0]? == some "val" && int! (rhs[1]?.getD "0") == v then s
           else s.diverge s!"get {vid} {i}" (toString v) (" ".intercalate rhs.toList)
@@ -441,7 +445,7 @@ def modelStep (s : DState) (cmd : String) (t lhs rhs : Array String) (line : Str
       | none => s.diverge "cget" "no such view" line
       | some b =>
         match chanSample s.heap b c i with
-        | none => if implOutcome rhs == "panic index" then s else s.diverge s!"cget {vid} {c} {i}" "panic index" (" ".intercalate rhs.toList)
+        | none => if (implOutcome rhs).startsWith "panic" then s else s.diverge s!"cget {vid} {c} {i}" "panic index" (" ".intercalate rhs.toList)
         | some v =>
           if rhs[0]? == some "val" && int! (rhs[1]?.getD "0") == v then s
           else s.diverge s!"cget {vid} {c} {i}" (toString v) (" ".intercalate rhs.toList)
@@ -452,7 +456,7 @@ def modelStep (s : DState) (cmd : String) (t lhs rhs : Array String) (line : Str
       | none => s.diverge "cset" "no such view" line
       | some b =>
         match chanSetSample s.heap b c i v with
-        | none => if implOutcome rhs == "panic index" then s else s.diverge "cset" "panic index" (implOutcome rhs)
+        | none => if (implOutcome rhs).startsWith "panic" then s else s.diverge "cset" "panic index" (implOutcome rhs)
         | some h => if implOutcome rhs == "ok" then { s with heap := h } else s.diverge "cset" "ok" (implOutcome rhs)
     else if cmd == "cshape" then
       let vid := int! (lhs[1]?.getD "0"); let c := int! (lhs[2]?.getD "0")
@@ -744,7 +748,7 @@ def stepLine (s : DState) (line : String) : DState :=
     else modelStep s cmd t lhs rhs line
 
 def summary (s : DState) : String :=
-  s!"SUMMARY prop={s.prop} lines={s.lineNo} cases={s.caseNo} ops={s.nOps} views={s.nViews} kernels={s.nKern} predicates={s.nPred} diverge={s.nDiv} fail={s.nFail} unspec={s.nUnspec} skipped={s.nDeadSkipped}"
+  s!"SUMMARY prop={s.prop} lines={s.lineNo} cases={s.caseNo} ops={s.nOps} views={s.nViews} kernels={s.nKern} predicates={s.nPred} diverge={s.nDiv} fail={s.nFail} unspec={s.nUnspec} skipped={s.nDeadSkipped} panickind={s.nPanicKind}"
 
 end Driver
 end Sig
